@@ -76,7 +76,9 @@ def install(policy="all", gc_every=4, seed=0):
         res = o["check_unsat_cores"](query, unsat_cores)
         try:
             snap = [(id(c), [str(x) for x in c]) for c in list(unsat_cores)]
-            EVENTS.append({"k": "check", "ctx": id(unsat_cores), "smt": query.smtlib, "ids": list(query.assertions),
+            _STATE["ids_are_str"] = isinstance(query.assertions, str)
+            EVENTS.append({"k": "check", "ctx": id(unsat_cores), "smt": query.smtlib,
+                           "ids": query.assertions.split() if isinstance(query.assertions, str) else list(query.assertions),
                            "cores": snap, "res": bool(res), "t": time.time()})
         except Exception as e:  # never disturb halmos
             EVENTS.append({"k": "hookerr", "msg": repr(e)})
@@ -108,7 +110,8 @@ def install(policy="all", gc_every=4, seed=0):
                         "core": None if so is None or so.unsat_core is None else [str(x) for x in so.unsat_core],
                         "stored": [(id(c), [str(x) for x in c]) for c in new],
                         "smt": pc.query.smtlib if pc is not None else None,
-                        "ids": list(pc.query.assertions) if pc is not None else None,
+                        "ids": (pc.query.assertions.split() if isinstance(pc.query.assertions, str) else list(pc.query.assertions))
+                        if pc is not None else None,
                         "raw": raw, "valid": getattr(getattr(so, "model", None), "is_valid", None),
                     })
                 except Exception as e:
@@ -501,7 +504,8 @@ def crafted_query(smt: str, ids, K, fallback=None):
             s.assert_and_track(f, str(i))
             used.append(str(i))
     text = s.to_smt2().replace("(check-sat)", "")
-    return SMTQuery(text, used)
+    # the container type of `assertions` is whatever the engine's own Path.to_smt2() produces on this tree (seen by the hook)
+    return SMTQuery(text, " ".join(used) if _STATE.get("ids_are_str") else used)
 
 
 def real_solve(query, cores, solver="yices", **over):
